@@ -18,6 +18,9 @@ func runC16(c *Check) {
 	c.chunkTiling()
 	c.combineNonNil()
 	c.validatedPerSource()
+	c.chunkOrder()
+	c.mergedIffNoError()
+	c.fetchSharesNothing("C16-R3")
 }
 
 // combineNonNil (R7): a profile handed to combineProfiles is known to be non-nil at the
